@@ -33,7 +33,8 @@ CONSTANTS MaxN, Names, KindSet
 DefKinds == {"def", "adef", "cm", "sm", "prop", "setter"}          \* function definitions
 ClassKinds == {"class", "exc"}
 FlowKinds == {"if", "ifmain", "try", "with", "for", "while"}
-LeafKinds == {"assign", "oldcm", "oldsm", "docstr", "mivar", "mivard"}
+LeafKinds == {"assign", "oldcm", "oldsm", "docstr", "mivar", "mivard", "del"}
+   \* del: "del x" - unbinds the name (the builder has no visit_Delete: the statement is not seen)
    \* x = <literal> ; f = classmethod(f) ; f = staticmethod(f) ; a bare string ;
    \* mivar: "def _m<i>(self): self.x = <literal>" - a method (named after its own node, so never a duplicate) whose body
    \*        assigns the INSTANCE variable x;  mivard: the same followed, inside the method, by a bare string (documents x)
@@ -101,12 +102,15 @@ PyFold(seq, k, ns) ==
              PyFold(seq, k + 1, IF nm[i] \in DOMAIN ns /\ ns[nm[i]].kind \in {"method", "async method", "class method", "static method"}
                                   THEN [ns EXCEPT ![nm[i]].kind = IF kind[i] = "oldcm" THEN "class method" ELSE "static method"]
                                   ELSE ns)
+      [] kind[i] = "del" -> PyFold(seq, k + 1, [x \in DOMAIN ns \ {nm[i]} |-> ns[x]])
       [] kind[i] \in IvarKinds ->           \* the class gets the method; the assignment in its body binds nothing in the class
              PyFold(seq, k + 1, [x \in DOMAIN ns \cup {MName(i)} |-> IF x = MName(i) THEN [node |-> i, kind |-> "method"] ELSE ns[x]])
       [] OTHER -> PyFold(seq, k + 1, [x \in DOMAIN ns \cup {nm[i]} |-> IF x = nm[i] THEN [node |-> i, kind |-> PyKind(i)] ELSE ns[x]])
 PyNS(s) == PyFold(SeqOfScope(s), 1, <<>>)
-\* a generated program must be importable: setter needs a property, old-style wrapping needs a function
+PyNSBefore(s, k) == PyFold(SelectSeq(SeqOfScope(s), LAMBDA j : j < k), 1, <<>>)
+\* a generated program must be importable: setter needs a property, old-style wrapping needs a function, del a bound name
 Importable == \A i \in 1..n : Runs(i) =>
+   /\ kind[i] = "del" => nm[i] \in DOMAIN PyNSBefore(Scope(i), i)
    /\ kind[i] = "setter" => \E j \in NodesIn(Scope(i)) : j < i /\ nm[j] = nm[i] /\ kind[j] = "prop"
                             /\ \A j2 \in NodesIn(Scope(i)) : (j < j2 /\ j2 < i /\ nm[j2] = nm[i]) => kind[j2] = "setter"
    /\ kind[i] \in {"oldcm", "oldsm"} => \E j \in NodesIn(Scope(i)) : j < i /\ nm[j] = nm[i] /\ kind[j] \in {"def", "adef", "cm", "sm"}
@@ -133,6 +137,7 @@ PdFold(seq, k, ns) ==
              PdFold(seq, k + 1, IF nm[i] \in DOMAIN ns /\ ns[nm[i]].kind \in {"method", "async method", "class method", "static method"}
                                   THEN [ns EXCEPT ![nm[i]].kind = IF kind[i] = "oldcm" THEN "class method" ELSE "static method"]
                                   ELSE ns)
+      [] kind[i] = "del" -> PdFold(seq, k + 1, ns)          \* not visited
       [] kind[i] = "assign" ->                            \* _handleModuleVar/_handleClassVar
              PdFold(seq, k + 1,
                 IF nm[i] \notin DOMAIN ns THEN [x \in DOMAIN ns \cup {nm[i]} |-> IF x = nm[i] THEN [node |-> i, kind |-> "variable"] ELSE ns[x]]
